@@ -12,6 +12,10 @@
 //!                             the call the appender is dropped, the directory is replaced by
 //!                             the image and a FRESH appender (append flag = mode) is built on it.
 //!                             When the k-th call is never reached: plain restart after the op
+//!      (0 record (4 k))       append; at the k-th hook call the step's (vacant) destination is turned
+//!                             into a non-empty directory, so the step fails in the REAL file system
+//!                             and the crate's own error handling runs; the obstacle is removed when
+//!                             the call has returned (the model sees fault kind 1)
 //!      (1 mode)               restart: drop the appender, build a new one
 //!      (0 record (3 L))       append while RLIMIT_FSIZE = L bytes (SIGXFSZ ignored): a write
 //!                             beyond L fails with EFBIG, the moral equivalent of a full disk
@@ -72,6 +76,9 @@ impl Encode for TableEncoder {
 struct HookState {
     root: PathBuf,
     fail_at: Option<usize>,
+    /// at this hook call a REAL obstacle is put in the step's way (see fault kind 4)
+    block_at: Option<usize>,
+    blocked: Option<PathBuf>,
     crash_at: Option<usize>,
     images: Vec<Vec<(String, Vec<u8>)>>,
     crash_dir: Option<tempfile::TempDir>,
@@ -250,7 +257,7 @@ pub fn run(case: &Val) -> Val {
     let hs = Arc::new(Mutex::new(HookState { root: root.clone(), ..Default::default() }));
     if !nohook {
         let h = hs.clone();
-        log4rs::verif_hooks::set_rotate_step(Some(Box::new(move |k, _src, _dst| {
+        log4rs::verif_hooks::set_rotate_step(Some(Box::new(move |k, _src, dst| {
             let mut st = h.lock().unwrap();
             if st.dead {
                 return Ok(());
@@ -267,6 +274,18 @@ pub fn run(case: &Val) -> Val {
             if st.fail_at == Some(k) {
                 return Err(io::Error::new(io::ErrorKind::Other, "injected rotation fault"));
             }
+            if st.block_at == Some(k) {
+                // the step's destination becomes a non-empty directory: the rename (and move_file's
+                // copy fall-back, and File::create of a compressed archive) fail in the real file
+                // system, so the crate's own error path runs.  Only when the name is vacant (it always
+                // is for k >= 1: the previous shift emptied it).
+                let d = PathBuf::from(dst);
+                if fs::symlink_metadata(&d).is_err() {
+                    if fs::create_dir_all(&d).is_ok() && fs::write(d.join("keep"), b"obst").is_ok() {
+                        st.blocked = Some(d);
+                    }
+                }
+            }
             Ok(())
         })));
     }
@@ -281,14 +300,17 @@ pub fn run(case: &Val) -> Val {
             0 => {
                 let f = o[2].l();
                 let (fail_at, crash_at, restart) = match f[0].n() {
-                    0 | 3 => (None, None, None),
+                    0 | 3 | 4 => (None, None, None),
                     1 => (Some(f[1].u()), None, None),
                     _ => (None, Some(f[1].u()), Some(f[2].b())),
                 };
+                let block_at = if f[0].n() == 4 { Some(f[1].u()) } else { None };
                 let fsize = if f[0].n() == 3 { Some(f[1].n() as u64) } else { None };
                 {
                     let mut st = hs.lock().unwrap();
                     st.fail_at = fail_at;
+                    st.block_at = block_at;
+                    st.blocked = None;
                     st.crash_at = crash_at;
                     st.images.clear();
                     st.crash_dir = None;
@@ -302,8 +324,14 @@ pub fn run(case: &Val) -> Val {
                 let (imgs, crash_dir) = {
                     let mut st = hs.lock().unwrap();
                     st.fail_at = None;
+                    st.block_at = None;
                     st.crash_at = None;
                     st.dead = false;
+                    // "once the obstruction is gone": the obstacle of a real fault is removed as soon as
+                    // the failing call has returned
+                    if let Some(d) = st.blocked.take() {
+                        let _ = fs::remove_dir_all(&d);
+                    }
                     (std::mem::take(&mut st.images), st.crash_dir.take())
                 };
                 let mut ack_err = !ok;
